@@ -1610,6 +1610,7 @@ static void run(const Case &c, Ctx &ctx) {
         w.step(mkop(CUR_PATTERN, {(uint64_t)j, 0, 5, 3 + (c.c(10) * (j + 1)) % 37, c.c(10) * 3 + (uint64_t)(j == 0 ? 1 : j == 1 ? 2 : 0)}));
     w.nfailed = w.ngrow = w.nalias = w.nhuge = w.nsecure = 0; // the set-up does not count
     ctx.tags.clear();
+    for (auto &b : w.bufs) ctx.tag(b.kind == K_STATIC ? "static_buffer" : b.kind == K_OWNED ? "owned_buffer" : "zeroed_buffer");
     for (auto &op : c.ops) w.step(op);
     unsigned nfailed = w.nfailed, nsecure = w.nsecure;
     for (int i = 0; i < NB; i++) w.step(mkop(i % 2 ? B_CLEAN_UP_SECURE : B_CLEAN_UP, {(uint64_t)i}));
